@@ -14,6 +14,8 @@ mod model;
 mod ops;
 mod oracle;
 mod rng;
+mod sched;
+mod schedrun;
 mod seq;
 mod special;
 mod sut;
@@ -221,6 +223,7 @@ fn main() {
     let _ = REPLAY_DIR.set(args.replay_dir.clone());
     let rep = match args.cmd.as_str() {
         "seq" => seq::run(&args),
+        "sched" => schedrun::run(&args),
         "init" => special::run_init(&args),
         "single" => special::run_single(&args),
         "handoff" => special::run_handoff(&args),
@@ -234,6 +237,7 @@ fn main() {
             let j = J::parse(&text).expect("parse replay");
             match j.get("engine").and_then(|e| e.as_str()) {
                 Some("seq") => seq::replay(&j),
+                Some("sched") => schedrun::replay(&j),
                 e => panic!("unknown engine {e:?}"),
             }
         }
